@@ -560,6 +560,8 @@ SNIPPETS: list[str] = [
     "def dec(f): return f\n@dec\ndef f(): pass\n@dec\ndef f(): pass\nclass A:\n    @dec\n    def m(self): pass\n    @dec\n    def m(self): pass\n",
     "def f(*, k=1, j): pass\nf()\nf(j=1)\nf(k=2)\ndef g(a, /, b, *, c=1): pass\ng(1, 2)\ng(a=1, b=2)\ng(1, b=2, c=3, d=4)\n",
     "while x:\n    y = 1\nelse:\n    y = 's' + 1\nfor i in x:\n    pass\nelse:\n    z: int = 's'\n",
+    # found by the fragment model: `__x` keyword-only / star parameters and positional-only-ness
+    "def f(*, __x=1): pass\nf(__x=2)\ndef g(*a, __y): pass\ng(__y=1)\ndef h(__p, q): pass\nh(__p=1, q=2)\nclass A:\n    def m(self, *, __k): pass\nA().m(__k=1)\n",
 ]
 
 
@@ -1213,7 +1215,7 @@ def clamp_stage(ctx: "vlib.Ctx", pool: Pool) -> None:
             changed += 1
         # the theorem's conclusion, observed on the real object
         if not (real[2] >= real[0] and (real[2] != real[0] or real[3] > real[1])):
-            ctx.violation(f"clamp:{t}", f"Errors.report{tuple(t)} stores the malformed span {real}", {"tuple": t, "stored": real})
+            ctx.violation("clamp:malformed-span-stored", f"Errors.report{tuple(t)} stores the malformed span {real}", {"tuple": t, "stored": real})
     ctx.add("evaluations", len(tuples))
     ctx.add("traces_validated_against_impl", len(tuples) - bad)
     ctx.cov["clamp"] = {"tuples": len(tuples), "tuples_where_the_clamp_changes_something": changed, "mismatches": bad}
@@ -1302,7 +1304,7 @@ def replay(ctx: "vlib.Ctx", path: str) -> None:
 COQ_TAGS = ["LITERAL_NONE", "LITERAL_INT", "LITERAL_STR", "LIST_GEN", "LIST_INT", "LOCATION", "END_TAG", "EXPR_STMT", "CALL_EXPR",
             "NAME_EXPR", "STR_EXPR", "MEMBER_EXPR", "OP_EXPR", "INT_EXPR", "IF_STMT", "ASSIGNMENT_STMT", "TUPLE_EXPR", "BLOCK",
             "LIST_EXPR", "RETURN_STMT", "WHILE_STMT", "COMPARISON_EXPR", "BOOL_OP_EXPR", "PASS_STMT", "UNARY_EXPR", "FOR_STMT",
-            "CONDITIONAL_EXPR"]
+            "CONDITIONAL_EXPR", "FUNC_DEF_STMT"]
 BINOP_C = {"+": "Add", "-": "Sub", "*": "Mult", "@": "MatMult", "/": "Div", "%": "Mod", "**": "Pow", "<<": "LShift", ">>": "RShift",
            "|": "BitOr", "^": "BitXor", "&": "BitAnd", "//": "FloorDiv"}
 CMPOP_C = {"==": "Eq", "!=": "NotEq", "<": "Lt", "<=": "LtE", ">": "Gt", ">=": "GtE", "is": "Is", "is not": "IsNot", "in": "In", "not in": "NotIn"}
@@ -1376,6 +1378,12 @@ def cq_stmts(l: list) -> str:
 
 def cq_stmt(s: list) -> str:
     k = s[0]
+    if k == "SDef":
+        ps = "PNil"
+        for x in reversed(s[3]):
+            d = f"(Some {cq_expr(x[5][1])})" if len(x[5]) > 1 else "None"
+            ps = f"(PCons {cq_pos(x[1])} {cq_pos(x[2])} {cq_s(x[3])} {x[4]} {d} {ps})"
+        return f"(SDef {cq_pos(s[1])} {cq_s(s[2])} {ps} {cq_stmt(s[4][0])} {cq_stmts(s[4][1:])})"
     if k == "SExpr":
         return f"(SExpr {cq_pos(s[1])} {cq_expr(s[2])})"
     if k == "SAssign":
@@ -1503,6 +1511,12 @@ FRAG_FIXED = [
     "'a' 'b'\n", "x = 'it''s'\n", "a  +  b\n", "a +\\\n  b\n", "if a: pass\n", "if a: b; c\n", "x = 1; y = 2\n", "while a: pass\nelse: pass\n",
     "for x in a, b: pass\n", "for x.y in z: pass\n", "1 if 2 else 3\n", "a[0]\n", "lambda: 1\n", "x: int = 1\n", "def f(): pass\n", "0x10\n", "10**30\n",
     "12345678901234567890123\n", "\"q\\\"uote\"\n", "'\\n'\n",
+    "def f(): pass\n", "def f(a, b=1, /, c=2, *d, e, g=3, **h):\n    return a\n", "def f(a, b):\n    x = a\n    return b\n",
+    "def f(*, k): pass\n", "def f(*a): pass\n", "def f(**k): pass\n", "def f(* a, ** k): pass\n", "def f(__a, b, __c__): pass\n",
+    "def __add__(self, other): pass\n", "def __init__(self, x=1): pass\n", "def __call__(self, x): pass\n", "def f(a, /): pass\n",
+    "def f(a=(1, 2), b=g(x)): pass\n", "def f():\n    def g(x):\n        return x\n    return g\n", "def f(): pass\ndef f(): pass\ndef g(): pass\n",
+    "if a:\n    def f(): pass\nelse:\n    def f(x): pass\n", "def f(a,\n      b=1,\n      *c): pass\n", "async def f(): pass\n", "@d\ndef f(): pass\n",
+    "def f(x: int): pass\n", "def f() -> int: pass\n", "def f(x, x): pass\n",
 ]
 
 
@@ -1568,7 +1582,7 @@ def gen_frag_programs(rng: "vlib.Rng", n: int) -> list[str]:
         return f"({e})"
 
     def stmt(d: int, ind: str) -> list[str]:
-        k = rng.choice(["expr", "expr", "assign", "return", "pass", "while", "for", "if", "if"]) if d > 0 else rng.choice(["expr", "assign", "pass", "return"])
+        k = rng.choice(["expr", "expr", "assign", "return", "pass", "while", "for", "if", "if", "def", "def"]) if d > 0 else rng.choice(["expr", "assign", "pass", "return"])
         if k == "expr":
             return [ind + expr(2)]
         if k == "assign":
@@ -1579,6 +1593,30 @@ def gen_frag_programs(rng: "vlib.Rng", n: int) -> list[str]:
         if k == "pass":
             return [ind + "pass"]
         body = lambda: [l for _ in range(rng.randint(1, 2)) for l in stmt(d - 1, ind + "    ")]  # noqa: E731
+        if k == "def":
+            ps = []
+            pool_ = ["a", "b", "c", "self", "__x", "__y__", "k", "_"]
+            rng.shuffle(pool_)
+            npos = rng.randint(0, 3)
+            ndef = rng.randint(0, npos)
+            for j in range(npos):
+                ps.append(pool_.pop() + (f"={expr(1)}" if j >= npos - ndef else ""))
+            if ps and rng.random() < 0.3:
+                ps.insert(rng.randint(1, len(ps)), "/")
+            if rng.random() < 0.35:
+                ps.append(rng.choice(["*", "* ", "*  "]).rstrip(" ") + "args" if rng.random() < 0.7 else "* args")
+                star = True
+            else:
+                star = False
+            nkw = rng.randint(0, 2)
+            if nkw and not star:
+                ps.append("*")
+            for j in range(nkw):
+                ps.append(pool_.pop() + (f"={expr(1)}" if rng.random() < 0.5 else ""))
+            if rng.random() < 0.3:
+                ps.append("**kw")
+            name = rng.choice(["f", "g", "meth", "__add__", "__init__", "__call__", "__private", "__eq__"])
+            return [ind + f"def {name}({', '.join(ps)}):"] + body()
         if k == "while":
             out = [ind + f"while {expr(2)}:"] + body()
             if rng.random() < 0.4:
